@@ -4,6 +4,36 @@ value codec, and one logged run of the real glom."""
 from collections import OrderedDict
 
 LOG = []
+# identity observation (C08): the mutable containers `build` created for the spec of the current
+# run, and every one of them that was handed to a catalogue callable
+SPEC_OBJS = []
+LEAKS = []
+
+
+def _reg(fns, key, obj):
+    """remember an object created while building a case (kept alive, found again by identity)"""
+    if fns is not None:
+        fns.setdefault((key,), []).append(obj)
+    return obj
+
+
+def mutables(v, seen=None):
+    """every list / dict / set object reachable from a value through plain containers"""
+    if seen is None:
+        seen = set()
+    if id(v) in seen:
+        return
+    if type(v) in (list, tuple, set, frozenset) or isinstance(v, dict):
+        seen.add(id(v))
+        if type(v) not in (tuple, frozenset):
+            yield v
+        if isinstance(v, dict):
+            for k, x in list(v.items()):
+                yield from mutables(k, seen)
+                yield from mutables(x, seen)
+        else:
+            for x in list(v):
+                yield from mutables(x, seen)
 
 
 # ----------------------------------------------------------------- values
@@ -61,15 +91,15 @@ def dec(j, fns=None):
     if 'sent' in j:
         return {'SKIP': glom.SKIP, 'STOP': glom.STOP}[j['sent']]
     if 'l' in j:
-        return [dec(x, fns) for x in j['l']]
+        return _reg(fns, 'dec-objs', [dec(x, fns) for x in j['l']])
     if 't' in j:
         return tuple(dec(x, fns) for x in j['t'])
     if 'd' in j:
-        return {dec(k, fns): dec(v, fns) for k, v in j['d']}
+        return _reg(fns, 'dec-objs', {dec(k, fns): dec(v, fns) for k, v in j['d']})
     if 'od' in j:
-        return OrderedDict((dec(k, fns), dec(v, fns)) for k, v in j['od'])
+        return _reg(fns, 'dec-objs', OrderedDict((dec(k, fns), dec(v, fns)) for k, v in j['od']))
     if 'set' in j:
-        return set(dec(x, fns) for x in j['set'])
+        return _reg(fns, 'dec-objs', set(dec(x, fns) for x in j['set']))
     if 'fs' in j:
         return frozenset(dec(x, fns) for x in j['fs'])
     if 'fn' in j:
@@ -91,6 +121,12 @@ class Fn:
 
     def __call__(self, *args, **kwargs):
         LOG.append({'call': self.__name__, 'args': [enc(a) for a in args]})
+        if SPEC_OBJS:
+            own = set(map(id, SPEC_OBJS))
+            for a in list(args) + list(kwargs.values()):
+                for o in mutables(a):
+                    if id(o) in own:
+                        LEAKS.append('%s received the spec\'s own %s object' % (self.__name__, type(o).__name__))
         return apply_kind(self.kind, args, kwargs)
 
 
@@ -195,13 +231,14 @@ def build(j, fns):
     if k == 'tuple':
         return tuple(B(x) for x in j['xs'])
     if k == 'list':
-        return [B(x) for x in j['xs']]
+        return _reg(fns, 'spec-containers', [B(x) for x in j['xs']])
     if k == 'dict':
-        return {B(a): B(b) for a, b in j['es']}
+        return _reg(fns, 'spec-containers', {B(a): B(b) for a, b in j['es']})
     if k == 'odict':
+        # (an OrderedDict is not rebuilt in Fill / argument position: outside the modelled domain)
         return OrderedDict((B(a), B(b)) for a, b in j['es'])
     if k == 'set':
-        return set(B(x) for x in j['xs'])
+        return _reg(fns, 'spec-containers', set(B(x) for x in j['xs']))
     if k == 'fset':
         return frozenset(B(x) for x in j['xs'])
     if k == 'fn':
@@ -347,16 +384,16 @@ def exc_name(e):
     return type(e).__name__
 
 
-def run_glom(case, built=None):
-    """one real glom() call; returns impl observation fields.  `built` = (spec, target) objects to
-    re-use (a second call on the very same spec object)"""
+def run_glom(case, built=None, keep=False):
+    """one real glom() call; returns impl observation fields.  `built` = (spec, target, fns) objects
+    to re-use (a second call on the very same spec object); `keep` also returns the raw result"""
     import glom
-    fns = {}
     if built is None:
+        fns = {}
         spec = build(case['spec'], fns)
         target = dec(case['target'], fns)
     else:
-        spec, target = built
+        spec, target, fns = built
     kw = {}
     caller_scope = None
     if case.get('scope'):
@@ -364,6 +401,9 @@ def run_glom(case, built=None):
         kw['scope'] = caller_scope
     before = dict(caller_scope) if caller_scope is not None else None
     del LOG[:]
+    del LEAKS[:]
+    SPEC_OBJS[:] = fns.get(('spec-containers',), [])
+    res = None
     try:
         res = glom.glom(target, spec, **kw)
     except Exception as e:
@@ -375,9 +415,57 @@ def run_glom(case, built=None):
             impl = {'err': 'Unencodable:' + str(ve)[:80]}
     log = list(LOG)
     del LOG[:]
+    # identity: no mutable container of the spec may be part of the result or reach a callable
+    own = set(map(id, SPEC_OBJS))
+    leaks = list(LEAKS)
+    for o in mutables(res):
+        if id(o) in own:
+            leaks.append('the result contains the spec\'s own %s object' % type(o).__name__)
+    del LEAKS[:]
+    del SPEC_OBJS[:]
     out = dict(case)
     out['impl'] = impl
     out['impl_log'] = log
     out['impl_scope_untouched'] = (before == caller_scope) if before is not None else True
-    out['_built'] = (spec, target)
+    out['impl_fresh'] = not leaks
+    if leaks:
+        out['impl_leaks'] = sorted(set(leaks))
+    out['_built'] = (spec, target, fns)
+    if keep:
+        out['_res'] = res
     return out
+
+
+MARK = '#mutated'
+
+
+def run_glom_mutating(case):
+    """the same spec object evaluated twice; between the two calls every mutable container of the
+    first result that glom created (i.e. that is not part of the target, of a Val / scope value of
+    the case) is mutated.  The second evaluation (fresh equal target) must not see any of it."""
+    first = run_glom(case, keep=True)
+    spec, target, fns = first.pop('_built')
+    res = first.pop('_res')
+    given = set(map(id, fns.get(('dec-objs',), [])))
+    n = 0
+    for o in list(mutables(res)):
+        if id(o) in given:
+            continue
+        n += 1
+        if type(o) is list:
+            o.append(MARK)
+        elif isinstance(o, dict):
+            o[MARK] = MARK
+        else:
+            o.add(MARK)
+    first['impl_mutated'] = n
+    second = run_glom(case, built=(spec, dec(case['target'], fns), fns))
+    second.pop('_built', None)
+    same = (first['impl'] == second['impl'] and first['impl_log'] == second['impl_log'])
+    first['impl_rerun_same'] = same
+    first['impl_fresh'] = first['impl_fresh'] and second['impl_fresh']
+    if second.get('impl_leaks'):
+        first['impl_leaks'] = sorted(set(first.get('impl_leaks', []) + second['impl_leaks']))
+    if not same:
+        first['impl_rerun'] = {'impl': second['impl'], 'log': second['impl_log']}
+    return first
